@@ -56,4 +56,7 @@ def obligations(tier):
             obs.append(Ob('num.%s.N%d' % (nm, n), 'C17/numparse.c', units=U, models=['@log_stub.c', '@libc_model.c'], remove=RM, defines={'FUNC': f, 'N': n}, unwind=n + 3, tier=t, timeout=900, mem_gb=6,
                           solver='kissat' if (t == 'thorough' or f == 4) else None,
                           statement='%s parser returns exactly the mathematical value / documented error' % nm, bounds='<= %d bytes, all byte values' % n))
+    for f, nm in ((1, 'pos_int_ws'), (2, 'status'), (3, 'content_length')):
+        obs.append(Ob('num.%s.digits.N20' % nm, 'C17/numparse.c', units=U, models=['@log_stub.c', '@libc_model.c'], remove=RM, defines={'FUNC': f, 'N': 20, 'DIGITS': 1}, unwind=23, tier='quick', timeout=900, mem_gb=6, solver='kissat',
+                      expect_covers=False, statement='%s parser on long digit strings: exact value or error, never a wrapped value' % nm, bounds='0..20 decimal digits'))
     return obs
